@@ -262,7 +262,8 @@ def run_case(ctx, name, params):
                    "crowding")
     elif name == "truncate":
         r = ctx.rng("tr", params["seed"])
-        sel = _selector()
+        from .c02 import _selector as _any_selector
+        sel = _any_selector(ctx, ("c03", params["seed"]))     # ranks do not depend on the selector's tournament options
         size = r.randint(1, params["max_size"])
         m = r.randint(1, 4)
         n = r.randint(1, 4)
@@ -273,10 +274,14 @@ def run_case(ctx, name, params):
             r.shuffle(order)
             p2 = [pop[i] for i in order]
             s2 = [snap[i] for i in order]
+            # "population: iterable" -- a list, a tuple, or something that can be walked only once
+            kind_ = r.choice(["list", "list", "tuple", "iterator", "generator"])
+            arg_ = p2 if kind_ == "list" else tuple(p2) if kind_ == "tuple" else iter(p2) if kind_ == "iterator" else (o_ for o_ in p2)
+            ctx.count("truncations_of_a_" + kind_)
             try:
-                res = operators.nondominated_truncate(p2, k)
+                res = operators.nondominated_truncate(arg_, k)
             except Exception as e:
-                ctx.violation("truncate/exception", "nondominated_truncate raised %r" % e, {"k": k})
+                ctx.violation("truncate/exception", "nondominated_truncate raised %r for a %s" % (e, kind_), {"k": k})
                 return
             judge_truncate(ctx, p2, s2, k, res, "direct")
             ctx.count("cases")
